@@ -27,14 +27,14 @@
 //! Errors: a planning-stage rejection of `a op b` (plan / schema / not-implemented error, or an
 //! unsupported cast at physical planning) = the pair is not comparable = discard (per pair, reason
 //! histogrammed; `extra` lists the non-comparable pairs). An execution error (cast overflow, number
-//! text that does not parse) is located by bisection over `a`-values then `b`-values (≤ 80 queries);
+//! text that does not parse) is located by probing each value against a NULL partner and bisecting the grid of the surviving values (≤ 40 extra queries);
 //! erroring / unlocated cells are excluded ("a comparison that evaluates without error"), and the other
 //! contexts run on the largest error-free sub-grid (greedy removal of the worst value). A context query
 //! that errors where P did not is not a wrong answer → label `ctx-error:<ctx>`, no verdict. An
 //! `Internal` error → inconclusive (reported in the label histogram, never a violation of C47).
 //!
-//! `extra` (deterministic): ALL 1024 ordered type pairs × the pair pools (first 7 values per side at
-//! quick tier = 49 value pairs, 16 per side = 256 at thorough) through the same body on 8/16 threads;
+//! `extra` (deterministic): ALL 1024 ordered type pairs × the pair pools (first 7 values + NULL per side at
+//! quick tier = 64 cells, 15 + NULL = 256 cells at thorough) through the same body on 8/16 threads;
 //! result keys `exhaustive_*` in the evidence (per-pair cell counts, list of non-comparable pairs).
 //!
 //! Non-trivial: the types differ, the pair is comparable, at least one cell evaluated, and (integer /
@@ -300,6 +300,22 @@ impl<'c> Runner<'c> {
         }
     }
 
+    /// does the value evaluate (all 12 comparisons) against a NULL of the other column's type?
+    async fn probe_alone(&mut self, i: Option<usize>, j: Option<usize>) -> Result<bool, Fatal> {
+        let null = Val::Null;
+        let av = i.map(|i| &self.case.a[i]).unwrap_or(&null);
+        let bv = j.map(|j| &self.case.b[j]).unwrap_or(&null);
+        let schema = Arc::new(Schema::new(vec![Field::new("a", self.case.l.arrow(), true), Field::new("b", self.case.r.arrow(), true)]));
+        let batch = RecordBatch::try_new(schema, vec![build_array(&self.case.l, &[av]).map_err(Fatal::Harness)?, build_array(&self.case.r, &[bv]).map_err(Fatal::Harness)?]).map_err(|e| Fatal::Harness(e.to_string()))?;
+        self.queries += 1;
+        let df = self.ctx.read_batch(batch).and_then(|d| d.select(twelve(&col("a"), &col("b"))));
+        match run_df(&self.ctx, df, false).await {
+            Ok(_) => Ok(true),
+            Err(e) if e.class == ErrClass::Internal => Err(Fatal::Internal(e.message)),
+            Err(_) => Ok(false),
+        }
+    }
+
     /// locate erroring cells by bisection (first over `a` values, then over `b` values)
     fn bisect<'s>(&'s mut self, ai: Vec<usize>, bi: Vec<usize>, grid: &'s mut BTreeMap<(usize, usize), CellState>) -> std::pin::Pin<Box<dyn std::future::Future<Output = Result<(), Fatal>> + 's>> {
         Box::pin(async move {
@@ -454,7 +470,7 @@ async fn evaluate_async(case: &Case, variant: &Variant, ev: &mut Eval) -> CaseRe
         Ok(c) => c,
         Err(e) => return CaseResult::inconclusive(format!("context: {e}")),
     };
-    let mut r = Runner { case, cols: Cols { case }, ctx, queries: 0, bisect_budget: 80 };
+    let mut r = Runner { case, cols: Cols { case }, ctx, queries: 0, bisect_budget: 40 };
     let res = body(&mut r, variant, ev).await;
     ev.queries = r.queries;
     match res {
@@ -516,17 +532,30 @@ async fn body(r: &mut Runner<'_>, variant: &Variant, ev: &mut Eval) -> Result<Ca
                     grid.insert((*i, *j), CellState::Unknown);
                 }
             }
-            // halves of the `a` values
-            if na > 1 {
-                let (x, y) = all_a.split_at(na / 2);
-                r.bisect(x.to_vec(), all_b.clone(), &mut grid).await?;
-                r.bisect(y.to_vec(), all_b.clone(), &mut grid).await?;
-            } else if nb > 1 {
-                let (x, y) = all_b.split_at(nb / 2);
-                r.bisect(all_a.clone(), x.to_vec(), &mut grid).await?;
-                r.bisect(all_a.clone(), y.to_vec(), &mut grid).await?;
-            } else {
-                grid.insert((0, 0), CellState::Error(e.message));
+            // Cast errors are (almost always) a property of one value: probe every value against a NULL
+            // partner, then evaluate the grid of the values that survive alone; bisect what still fails.
+            // (Only cells of successfully executed queries are ever used, so this is a search heuristic.)
+            let mut good_a = vec![];
+            for i in &all_a {
+                if matches!(case.a[*i], Val::Null) || r.probe_alone(Some(*i), None).await? {
+                    good_a.push(*i);
+                }
+            }
+            let mut good_b = vec![];
+            for j in &all_b {
+                if matches!(case.b[*j], Val::Null) || r.probe_alone(None, Some(*j)).await? {
+                    good_b.push(*j);
+                }
+            }
+            for i in &all_a {
+                for j in &all_b {
+                    if !good_a.contains(i) || !good_b.contains(j) {
+                        grid.insert((*i, *j), CellState::Error("a value of the cell fails on its own".into()));
+                    }
+                }
+            }
+            if !good_a.is_empty() && !good_b.is_empty() {
+                r.bisect(good_a, good_b, &mut grid).await?;
             }
         }
     }
@@ -950,7 +979,8 @@ fn zero_sign(v: &Val) -> Option<bool> {
 /// `inlist-float-zero-sign`: a float comparison (one side is a float column) where one side holds
 /// `-0.0` and the other `+0.0`: `InListExpr` compares float bit patterns while `=` normalises the zeros.
 pub fn known_signature(case: &Case) -> Option<String> {
-    if !case.lits {
+    // `VF_MIXED_IGNORE_KNOWN=1`: run everything (used to verify candidate repairs under mutrun)
+    if !case.lits || std::env::var("VF_MIXED_IGNORE_KNOWN").is_ok() {
         return None;
     }
     // `unwrap-cast-negative-scale`: `try_cast_literal_to_type` computes `10_i128.pow(scale as u32)` for a
@@ -960,12 +990,84 @@ pub fn known_signature(case: &Case) -> Option<String> {
     if neg(&case.l) || neg(&case.r) {
         return Some("unwrap-cast-negative-scale".into());
     }
+    // `date64-min-display`: `Display for ScalarValue::Date64(i64::MIN)` unwraps `Duration::try_milliseconds`
+    // (None for i64::MIN) → panic as soon as a plan with that literal is named / printed.
+    let has_min = |vs: &[Val]| vs.iter().any(|v| matches!(v, Val::N(s) if s == "-9223372036854775808"));
+    if (case.r.base == Base::Date64 && has_min(&case.b)) || (case.l.base == Base::Date64 && case.r.base == Base::I64 && has_min(&case.b)) {
+        return Some("date64-min-display".into());
+    }
+    // `unwrap-cast-int32-date64`: `CAST(int32_col AS Date64) op date64_literal` is rewritten to
+    // `int32_col op Int32(raw milliseconds)` although the cast Int32 → Date64 counts days.
+    if case.l.base == Base::I32 && case.r.base == Base::Date64 && case.b.iter().any(|v| matches!(v, Val::N(s) if s != "0")) {
+        return Some("unwrap-cast-int32-date64".into());
+    }
+    // `unwrap-cast-timestamp-literal-truncation`: `CAST(ts_col AS finer unit) op finer_literal` is rewritten
+    // to `ts_col op literal / ratio` with a truncating division.
+    if let Some(ratio) = ts_ratio(&case.l.base, &case.r.base) {
+        if case.b.iter().any(|v| matches!(v, Val::N(s) if s.parse::<i128>().map(|n| n % ratio != 0).unwrap_or(false))) {
+            return Some("unwrap-cast-timestamp-literal-truncation".into());
+        }
+    }
     if !(case.l.base.is_float() || case.r.base.is_float()) {
         return None;
     }
     let za: Vec<bool> = case.a.iter().filter_map(zero_sign).collect();
     let zb: Vec<bool> = case.b.iter().filter_map(zero_sign).collect();
     if za.iter().any(|x| zb.iter().any(|y| x != y)) { Some("inlist-float-zero-sign".into()) } else { None }
+}
+
+fn unit_scale(u: Unit) -> i128 {
+    match u {
+        Unit::S => 1,
+        Unit::Ms => 1_000,
+        Unit::Us => 1_000_000,
+        Unit::Ns => 1_000_000_000,
+    }
+}
+
+/// how many units of the literal type `r` make one unit of the timestamp column type `l` (None when
+/// `r` is not finer than `l`)
+fn ts_ratio(l: &Base, r: &Base) -> Option<i128> {
+    let Base::Ts(ul, _) = l else { return None };
+    let fine = match r {
+        Base::Ts(ur, _) => unit_scale(*ur),
+        Base::Date64 => 1_000,
+        _ => return None,
+    };
+    let coarse = unit_scale(*ul);
+    if fine > coarse { Some(fine / coarse) } else { None }
+}
+
+/// The case with the values that trigger an open finding removed (or, failing that, without the
+/// literal contexts) — used by the exhaustive sweep, which does not go through the engine's exclusion.
+fn degrade(mut c: Case, open: &BTreeSet<String>, log: &mut Vec<String>) -> Case {
+    for _ in 0..6 {
+        let Some(sig) = known_signature(&c) else { return c };
+        if !open.contains(&sig) {
+            return c;
+        }
+        let name = format!("{}/{}", c.l.label(), c.r.label());
+        let before = (c.a.len(), c.b.len());
+        match sig.as_str() {
+            "inlist-float-zero-sign" => {
+                c.a.retain(|v| zero_sign(v) != Some(true));
+                c.b.retain(|v| zero_sign(v) != Some(true));
+            }
+            "date64-min-display" => c.b.retain(|v| !matches!(v, Val::N(s) if s == "-9223372036854775808")),
+            "unwrap-cast-timestamp-literal-truncation" => {
+                let ratio = ts_ratio(&c.l.base, &c.r.base).unwrap_or(1);
+                c.b.retain(|v| !matches!(v, Val::N(s) if s.parse::<i128>().map(|n| n % ratio != 0).unwrap_or(false)));
+            }
+            _ => {}
+        }
+        if (c.a.len(), c.b.len()) != before && !c.a.is_empty() && !c.b.is_empty() {
+            log.push(format!("{name} ({sig}: offending values removed)"));
+        } else {
+            c.lits = false;
+            log.push(format!("{name} ({sig}: no literal contexts)"));
+        }
+    }
+    c
 }
 
 // ---------------------------------------------------------------------------------------------
@@ -1063,7 +1165,7 @@ impl Property for C47 {
             .boxed()
     }
     fn budget(&self, tier: Tier) -> Budget {
-        Budget::new(tier.pick(700, 60_000), tier.pick(8, 16)).min_nontrivial(tier.pick(150, 10_000)).discard_cap(0.6).case_timeout(150).shrink(300, 60)
+        Budget::new(tier.pick(2_400, 60_000), tier.pick(8, 16)).min_nontrivial(tier.pick(600, 10_000)).discard_cap(0.6).case_timeout(150).shrink(300, 60)
     }
     fn rule(&self) -> String {
         "ordered pair of column types from a 32-type matrix (ints, floats, Decimal128/256 with several scales, dates, timestamps, strings, dictionary forms) x <=6 values per side from pair-specific \
@@ -1111,7 +1213,7 @@ fn open_signatures() -> BTreeSet<String> {
 /// Deterministic sweep: every ordered type pair × the head of the pair pools.
 fn exhaustive(tier: Tier) -> Result<serde_json::Value, (String, Case)> {
     let types = all_types();
-    let per_side = tier.pick(7usize, 16usize);
+    let per_side = tier.pick(8usize, 16usize);
     let threads = tier.pick(8usize, 16usize);
     let mut cases: Vec<Case> = vec![];
     let open = open_signatures();
@@ -1122,25 +1224,12 @@ fn exhaustive(tier: Tier) -> Result<serde_json::Value, (String, Case)> {
             let mut b: Vec<Val> = pair_pool(r, l).into_iter().take(per_side - 1).collect();
             a.push(Val::Null);
             b.push(Val::Null);
-            let mut c = Case { l: *l, r: *r, a, b, tp: if (x + y) % 4 == 0 { 3 } else { 1 }, lits: true };
-            // open known findings: keep the pair in the sweep without the literal contexts
-            if let Some(sig) = known_signature(&c) {
-                if open.contains(&sig) && sig == "inlist-float-zero-sign" {
-                    // keep the literal contexts, drop the negative zeros
-                    c.a.retain(|v| zero_sign(v) != Some(true));
-                    c.b.retain(|v| zero_sign(v) != Some(true));
-                    degraded.push(format!("{}/{} ({sig}: negative zeros removed)", l.label(), r.label()));
-                }
-            }
-            if let Some(sig) = known_signature(&c) {
-                if open.contains(&sig) {
-                    c.lits = false;
-                    degraded.push(format!("{}/{} ({sig}: no literal contexts)", l.label(), r.label()));
-                }
-            }
+            let c = Case { l: *l, r: *r, a, b, tp: if (x + y) % 4 == 0 { 3 } else { 1 }, lits: true };
+            let c = degrade(c, &open, &mut degraded);
             cases.push(c);
         }
     }
+    let t0 = std::time::Instant::now();
     let next = std::sync::atomic::AtomicUsize::new(0);
     let results: std::sync::Mutex<Vec<(usize, Eval)>> = std::sync::Mutex::new(vec![]);
     std::thread::scope(|s| {
@@ -1162,6 +1251,7 @@ fn exhaustive(tier: Tier) -> Result<serde_json::Value, (String, Case)> {
     });
     let mut results = results.into_inner().unwrap();
     results.sort_by_key(|(k, _)| *k);
+    eprintln!("c47 exhaustive sweep: {} pairs in {:.1}s", results.len(), t0.elapsed().as_secs_f64());
     let mut not_comparable = vec![];
     let mut per_pair = serde_json::Map::new();
     let (mut comparable, mut ok, mut err, mut unknown, mut queries, mut inconclusive) = (0u64, 0u64, 0u64, 0u64, 0u64, 0u64);
